@@ -973,3 +973,36 @@ PROPS["C17"] = {
     "assumptions": ["thread-pool contract stub: AddJob runs each job exactly once with a ThreadPool whose id is an arbitrary value in [0,k); jobs with equal id never overlap and keep submission order; Wait returns after all jobs of the group",
                     "sync.Mutex / RWMutex / WaitGroup operations are no-ops under that contract"],
 }
+
+# ----------------------------------------------------------------------------- C07
+def c07_jobs(tier):
+    jobs = []
+    quick = tier == "quick"
+
+    def J(f, a, **kw):
+        jobs.append(dict({"pkg": ZZ, "func": f, "args": a, "mode": "real", "intmode": "int"}, **kw))
+    steps = 60000 if quick else 150000
+    J("verif_C07_gradientDescent", [0], max_steps=steps, max_paths=40)
+    J("verif_C07_gradientDescent", [1], max_steps=steps, max_paths=40)
+    for k in ((2, 3) if quick else (2, 3, 4)):
+        J("verif_C07_rprop", [k], max_paths=400)
+    for k in ((2, 3) if quick else (2, 3, 4)):
+        J("verif_C07_lineSearch", [k], max_paths=600)
+    return jobs
+
+
+PROPS["C07"] = {
+    "overlay": [RT, ("zzverif/c04.go", "zzverif/c04.go"), ("zzverif/c07.go", "zzverif/c07.go")],
+    "patterns": ["./zzverif"],
+    "mode": "real", "intmode": "int",
+    "jobs": c07_jobs,
+    "reach": ["gd-returned", "rprop-returned", "linesearch-returned"],
+    "replay_tol": 1e-9,
+    "job_budget_ms": {"quick": 150000, "thorough": 900000},
+    "selftest_vars": [],
+    "bounds": {"quick": "gradient descent (about 3 iterations by the step bound), Rprop (iteration caps 2, 3) and the strong-Wolfe line search (evaluation caps 2, 3) in dimension 1 with an uninterpreted objective (value and derivative are uninterpreted functions of the point), "
+                        "symbolic start, step and epsilon: on every path that returns before the cap the stopping predicate holds when re-evaluated at the returned point, hooks receive value and gradient of the point passed with them, the start vector is unchanged",
+               "thorough": "caps 4"},
+    "outside": "convergence; the 'within tolerance of the minimiser of a convex quadratic' clause; BFGS, Newton (root / crit / min), Adam, SAGA, Blahut-Arimoto; dimension above 1; paths longer than the stated caps",
+    "assumptions": ["the objective is a function: equal points give equal value and derivative (uninterpreted functions over the reals)", "floats read as reals"],
+}
